@@ -12,6 +12,7 @@ import (
 	"os/exec"
 	"strconv"
 	"strings"
+	"syscall"
 	"time"
 )
 
@@ -26,6 +27,7 @@ type Solver struct {
 	cmd       *exec.Cmd
 	in        io.WriteCloser
 	out       *bufio.Reader
+	lines     chan string
 	tb        *TB
 	declared  map[string]bool
 	timeoutMs int
@@ -63,6 +65,7 @@ func NewSolver(kind string, tb *TB, timeoutMs int) (*Solver, error) {
 func (s *Solver) start() error {
 	argv := solverArgv(s.kind, s.timeoutMs)
 	s.cmd = exec.Command(argv[0], argv[1:]...)
+	s.cmd.SysProcAttr = &syscall.SysProcAttr{Pdeathsig: syscall.SIGKILL} // no orphaned solvers if the checker is killed
 	in, err := s.cmd.StdinPipe()
 	if err != nil {
 		return err
@@ -77,6 +80,21 @@ func (s *Solver) start() error {
 	}
 	s.in = in
 	s.out = bufio.NewReaderSize(out, 1<<20)
+	lines := make(chan string, 256)
+	s.lines = lines
+	go func(r *bufio.Reader, ch chan string) {
+		// reader goroutine: lets roundTrip enforce a HARD time limit (the solvers' own soft limits are not always honoured)
+		for {
+			line, err := r.ReadString('\n')
+			if line != "" {
+				ch <- line
+			}
+			if err != nil {
+				close(ch)
+				return
+			}
+		}
+	}(s.out, lines)
 	s.declared = map[string]bool{}
 	pre := []string{
 		"(set-option :produce-models true)",
@@ -128,15 +146,23 @@ func (s *Solver) roundTrip(script string) (string, error) {
 		return "", err
 	}
 	var sb strings.Builder
+	hard := time.NewTimer(time.Duration(s.timeoutMs)*time.Millisecond*2 + 20*time.Second)
+	defer hard.Stop()
 	for {
-		line, err := s.out.ReadString('\n')
+		var line string
+		var ok bool
+		select {
+		case line, ok = <-s.lines:
+		case <-hard.C:
+			return sb.String(), fmt.Errorf("solver exceeded the hard time limit")
+		}
+		if !ok {
+			return sb.String(), fmt.Errorf("solver died: %s", sb.String())
+		}
 		if strings.Contains(line, doneMarker) {
 			break
 		}
 		sb.WriteString(line)
-		if err != nil {
-			return sb.String(), fmt.Errorf("solver died: %v: %s", err, sb.String())
-		}
 	}
 	if s.dump != nil {
 		fmt.Fprintln(s.dump, "; -> "+strings.ReplaceAll(strings.TrimSpace(sb.String()), "\n", "\n; "))
